@@ -16,6 +16,7 @@ package checks
 //   lookalike-key-p2  own claims whose CBOR keys start with the digits of the
 //                     profile keys (2650, -750001), declared around the
 //                     embedded claims
+//   wide-p2           a dozen own claims: a full token is a map of 16..22 entries
 //
 // Each style knows how to realise a model value, what its CBOR must look like
 // on the wire (read independently), and how to read its own claims back.
@@ -128,6 +129,51 @@ func (regionP2Profile) GetClaims() psatoken.IClaims {
 	}}
 }
 
+// ---- wide-p2: a dozen own claims, so that a full token is a map of 16 to 22
+// entries (a CBOR map head of the 0xb0.. range instead of 0xa0..) ----
+
+const WideP2Name = "http://example.com/verif/wide-on-p2"
+
+type WideP2Claims struct {
+	psatoken.P2Claims
+	W0  *int64 `cbor:"-75910,keyasint,omitempty" json:"w0,omitempty"`
+	W1  *int64 `cbor:"-75911,keyasint,omitempty" json:"w1,omitempty"`
+	W2  *int64 `cbor:"-75912,keyasint,omitempty" json:"w2,omitempty"`
+	W3  *int64 `cbor:"-75913,keyasint,omitempty" json:"w3,omitempty"`
+	W4  *int64 `cbor:"-75914,keyasint,omitempty" json:"w4,omitempty"`
+	W5  *int64 `cbor:"-75915,keyasint,omitempty" json:"w5,omitempty"`
+	W6  *int64 `cbor:"-75916,keyasint,omitempty" json:"w6,omitempty"`
+	W7  *int64 `cbor:"-75917,keyasint,omitempty" json:"w7,omitempty"`
+	W8  *int64 `cbor:"-75918,keyasint,omitempty" json:"w8,omitempty"`
+	W9  *int64 `cbor:"-75919,keyasint,omitempty" json:"w9,omitempty"`
+	W10 *int64 `cbor:"-75920,keyasint,omitempty" json:"w10,omitempty"`
+	W11 *int64 `cbor:"-75921,keyasint,omitempty" json:"w11,omitempty"`
+}
+
+func (o WideP2Claims) MarshalCBOR() ([]byte, error) { return encoding.SerializeStructToCBOR(hem, &o) }
+func (o *WideP2Claims) UnmarshalCBOR(data []byte) error {
+	return encoding.PopulateStructFromCBOR(hdm, data, o)
+}
+func (o WideP2Claims) MarshalJSON() ([]byte, error) { return encoding.SerializeStructToJSON(&o) }
+func (o *WideP2Claims) UnmarshalJSON(data []byte) error {
+	return encoding.PopulateStructFromJSON(data, o)
+}
+
+type wideP2Profile struct{}
+
+func (wideP2Profile) GetName() string { return WideP2Name }
+func (wideP2Profile) GetClaims() psatoken.IClaims {
+	p := eat.Profile{}
+	if err := p.Set(WideP2Name); err != nil {
+		panic(err)
+	}
+	return &WideP2Claims{P2Claims: psatoken.P2Claims{
+		Profile:          &p,
+		SwComponents:     &psatoken.SwComponents[*psatoken.SwComponent]{},
+		CanonicalProfile: WideP2Name,
+	}}
+}
+
 // ---- the table ----
 
 type extStyle struct {
@@ -150,6 +196,7 @@ var extStyles = []extStyle{
 	{"shadow-p2", P2, ShadowP2Name, shadowP2Profile{}, []int64{-75101}, []string{"vendor-boot-seed"}, true, true},
 	{"nested-p2", P2, NestedP2Name, nestedP2Profile{}, []int64{-75100, -75102}, []string{"timestamp", "serial"}, true, true},
 	{"lookalike-key-p2", P2, RegionP2Name, regionP2Profile{}, []int64{2650, -750001}, []string{"region", "flags"}, true, true},
+	{"wide-p2", P2, WideP2Name, wideP2Profile{}, []int64{-75910, -75911, -75912, -75913, -75914, -75915, -75916, -75917, -75918, -75919, -75920, -75921}, []string{"w0", "w1", "w2", "w3", "w4", "w5", "w6", "w7", "w8", "w9", "w10", "w11"}, true, true},
 }
 
 func extStyleByLabel(l string) extStyle {
@@ -197,6 +244,8 @@ func extBase(c psatoken.IClaims) any {
 		return &e.P2Claims
 	case *RegionP2Claims:
 		return &e.P2Claims
+	case *WideP2Claims:
+		return &e.P2Claims
 	case *psatoken.P1Claims, *psatoken.P2Claims:
 		return e
 	}
@@ -216,6 +265,8 @@ func extOwnPtrs(c psatoken.IClaims) []**int64 {
 		return []**int64{&e.Timestamp, &e.Serial}
 	case *RegionP2Claims:
 		return []**int64{&e.Region, &e.Flags}
+	case *WideP2Claims:
+		return []**int64{&e.W0, &e.W1, &e.W2, &e.W3, &e.W4, &e.W5, &e.W6, &e.W7, &e.W8, &e.W9, &e.W10, &e.W11}
 	}
 	return nil
 }
